@@ -32,6 +32,7 @@ type C30Client struct {
 	Cert  int    `json:"cert"`            // 0 none, 1 self-signed, 2 signed by the configured CA, 3 signed by another CA
 	Old   bool   `json:"old_suites"`      // offer the CBC/SHA1 suites TLS 1.0/1.1 need
 	After int    `json:"after,omitempty"` // 0 before any rotation/update, 1 after
+	NoSNI bool   `json:"no_sni,omitempty"` // no server name in the ClientHello (a client that dials an IP address)
 }
 
 type C30Scn struct {
@@ -44,11 +45,12 @@ type C30Scn struct {
 	Clients     []C30Client `json:"clients"`
 	Rotate      bool        `json:"rotate"`       // replace the certificate files and perform the documented reload step
 	UpdateFirst bool        `json:"update_first"` // an unrelated UpdatePolicyOptions before the rotation
+	Restart     bool        `json:"restart,omitempty"` // between the two halves: stop, replace the CA file (same path) by another CA, start a new server instance
 	Sched       SchedCfg    `json:"sched"`
 }
 
 type c30PKIT struct {
-	caPEM, srvAPEM, srvBPEM, leafKeyPEM []byte
+	caPEM, foreignPEM, srvAPEM, srvBPEM, leafKeyPEM []byte
 	srvADER, srvBDER                    []byte
 	cliSelf, cliGood, cliForeign        tls.Certificate
 }
@@ -97,7 +99,7 @@ func c30MakePKI() (*c30PKIT, error) {
 			return c, der
 		}
 		ca, caDER := mk(1, "sim-ca-000", true, &caKey.PublicKey, nil, caKey, false)
-		foreign, _ := mk(2, "foreign-ca", true, &foreignKey.PublicKey, nil, foreignKey, false)
+		foreign, foreignDER := mk(2, "foreign-ca", true, &foreignKey.PublicKey, nil, foreignKey, false)
 		if c30Err != nil {
 			return
 		}
@@ -110,7 +112,7 @@ func c30MakePKI() (*c30PKIT, error) {
 			return
 		}
 		pemOf := func(typ string, der []byte) []byte { return pem.EncodeToMemory(&pem.Block{Type: typ, Bytes: der}) }
-		c30pki = &c30PKIT{caPEM: pemOf("CERTIFICATE", caDER), srvAPEM: pemOf("CERTIFICATE", srvA), srvBPEM: pemOf("CERTIFICATE", srvB),
+		c30pki = &c30PKIT{caPEM: pemOf("CERTIFICATE", caDER), foreignPEM: pemOf("CERTIFICATE", foreignDER), srvAPEM: pemOf("CERTIFICATE", srvA), srvBPEM: pemOf("CERTIFICATE", srvB),
 			leafKeyPEM: pemOf("RSA PRIVATE KEY", x509.MarshalPKCS1PrivateKey(leafKey)), srvADER: srvA, srvBDER: srvB,
 			cliSelf:    tls.Certificate{Certificate: [][]byte{self}, PrivateKey: leafKey},
 			cliGood:    tls.Certificate{Certificate: [][]byte{good}, PrivateKey: leafKey},
@@ -221,11 +223,34 @@ func runC30(t *testing.T, scAny any, trace bool) *Outcome {
 			rotated = true
 			simrt.Probe("rotated")
 		}
+		goodKind, restarted := 2, false
 		for ci, c := range sc.Clients {
 			if sc.Rotate && !rotated && c.After == 1 {
 				doRotate()
 			}
+			if sc.Restart && !restarted && c.After == 1 && sc.CA == 1 {
+				// a new instance in the same process, same CA path, other CA inside
+				restarted = true
+				w.Stop()
+				os.WriteFile(caFile, pki.foreignPEM, 0o600)
+				tc2 := *tc
+				tc2copy := (&tc2).Clone()
+				w = NewWorld(o)
+				if err := w.Start(absnfs.ExportOptions{TLS: tc2copy}); err != nil {
+					o.Inconclusive = "restart: " + err.Error()
+					return
+				}
+				defer w.Stop()
+				goodKind = 3
+				if rotated {
+					wantLeaf = pki.srvBDER
+				}
+				simrt.Probe("restarted_with_other_ca")
+			}
 			ccfg := &tls.Config{InsecureSkipVerify: true, MinVersion: c.MinV, MaxVersion: c.MaxV, ServerName: "localhost"}
+			if c.NoSNI {
+				ccfg.ServerName = ""
+			}
 			if c.Old {
 				ccfg.CipherSuites = c30OldSuites
 			}
@@ -272,7 +297,7 @@ func runC30(t *testing.T, scAny any, trace bool) *Outcome {
 					o.Vio("C30.handshake-below-tls12", "negotiated="+versionName(st.Version), "client %d (offering %s..%s) was served over TLS %s (%s)", ci, versionName(c.MinV), versionName(c.MaxV), versionName(st.Version), facts)
 				}
 				verified := tc.CAFile != "" && (sc.ClientAuth == int(tls.RequireAndVerifyClientCert) || (sc.ClientAuth == int(tls.VerifyClientCertIfGiven) && c.Cert != 0))
-				if verified && c.Cert != 2 {
+				if verified && c.Cert != goodKind {
 					o.Vio("C30.unverified-client-served", fmt.Sprintf("auth=%d,cert=%d", sc.ClientAuth, c.Cert), "client %d presenting certificate kind %d (0 none, 1 self-signed, 3 foreign CA) was served although client certificates are verified against the configured CA (%s)", ci, c.Cert, facts)
 				}
 				if len(st.PeerCertificates) == 0 || !bytes.Equal(st.PeerCertificates[0].Raw, wantLeaf) {
@@ -328,12 +353,13 @@ func genC30(r *simrt.Rand, tier string) any {
 				a = b
 			}
 		}
-		c := C30Client{MinV: a, MaxV: b, Cert: r.Int(4), Old: b < tls.VersionTLS12 || r.Pct(30)}
+		c := C30Client{MinV: a, MaxV: b, Cert: r.Int(4), Old: b < tls.VersionTLS12 || r.Pct(30), NoSNI: r.Pct(50)}
 		if i >= n/2 {
 			c.After = 1
 		}
 		sc.Clients = append(sc.Clients, c)
 	}
+	sc.Restart = sc.CA == 1 && r.Pct(30)
 	sc.Sched.HorizonS = 3600
 	return sc
 }
@@ -361,7 +387,7 @@ func shrinkC30(scAny any) []any {
 
 func init() {
 	Register(&Prop{ID: "C30", Level: "exploration",
-		Rule: "one case = a TLS configuration drawn from {DefaultTLSConfig or zero value} x Min/MaxVersion in {0, 1.0, 1.1, 1.2, 1.3} (55% recommended ranges) x the five ClientAuth modes x CA file {none, the CA, missing} x cipher suites {as given, Go defaults, with CBC-SHA suites}; when Listen accepts it (real BuildConfig/Validate, tls.Listen seam on the simulated network, real crypto/tls on both ends) 2-6 clients offering version ranges within 1.0..1.3 (35% downgrade attempts capped at 1.0/1.1 with the CBC-SHA suites those versions need) and a certificate from {none, self-signed, signed by the configured CA, signed by another CA} perform a handshake followed by a NULL call (a handshake counts as completed when the server answers); in half of the runs the certificate files are replaced between the first and the second half of the clients and the documented rotation step is performed (optionally after an unrelated UpdatePolicyOptions); oracle: no served connection negotiated less than TLS 1.2; when client certificates are verified against the configured CA (RequireAndVerify, or VerifyIfGiven with a certificate given) only the CA-signed client is served; every served handshake presents the leaf certificate currently in the files as of the last rotation step; non-trivial = the configuration was accepted; distinct by event digest. The simulator contributes the network seam and determinism; the schedule dimension is small (sequential clients).",
+		Rule: "one case = a TLS configuration drawn from {DefaultTLSConfig or zero value} x Min/MaxVersion in {0, 1.0, 1.1, 1.2, 1.3} (55% recommended ranges) x the five ClientAuth modes x CA file {none, the CA, missing} x cipher suites {as given, Go defaults, with CBC-SHA suites}; when Listen accepts it (real BuildConfig/Validate, tls.Listen seam on the simulated network, real crypto/tls on both ends) 2-6 clients offering version ranges within 1.0..1.3 (35% downgrade attempts capped at 1.0/1.1 with the CBC-SHA suites those versions need) and a certificate from {none, self-signed, signed by the configured CA, signed by another CA} half of them without a server name in the ClientHello, perform a handshake followed by a NULL call (a handshake counts as completed when the server answers); in half of the runs the certificate files are replaced between the first and the second half of the clients and the documented rotation step is performed (optionally after an unrelated UpdatePolicyOptions); in 30% of the runs with a CA the server is stopped between the halves, the CA file is replaced at the same path by another CA and a new instance is started in the same process (the verified chain must then be the new CA's); oracle: no served connection negotiated less than TLS 1.2; when client certificates are verified against the configured CA (RequireAndVerify, or VerifyIfGiven with a certificate given) only the CA-signed client is served; every served handshake presents the leaf certificate currently in the files as of the last rotation step; non-trivial = the configuration was accepted; distinct by event digest. The simulator contributes the network seam and determinism; the schedule dimension is small (sequential clients).",
 		Gen:  genC30, New: func() any { return &C30Scn{} }, Run: runC30, Shrink: shrinkC30,
 		Real:        []string{"tls_config.go Validate/BuildConfig/ReloadCertificates/Clone", "server.go Listen/accept/connection loop", "crypto/tls and crypto/x509 on both ends", "options.go policy snapshots (GetExportOptions, UpdatePolicyOptions)"},
 		Stubbed:     []string{"kernel TCP (simnet under tls.NewListener / tls.Client)", "clock (synctest)", "scheduler", "certificate files live in a per-run temporary directory on the real filesystem"},
